@@ -481,6 +481,10 @@ func iterator(c *simkit.Choices, x *simkit.Ctx) *simkit.Violation {
 			te = model.TypeByName(sc.Types[c.N(len(sc.Types))]) // re-use of an already compiled type
 		}
 		v := te.Gen(c)
+		if c.N(6) == 0 {
+			// maps with SEVERAL entries, nested (compared in canonical form)
+			v, te = genNestedMaps(c, 0), model.TypeByName("map[string]interface{}")
+		}
 		vals = append(vals, v)
 		sc.Types = append(sc.Types, te.Name)
 		if i < nh {
@@ -553,7 +557,12 @@ func iterator(c *simkit.Choices, x *simkit.Ctx) *simkit.Violation {
 		return &simkit.Violation{Kind: "probe-differs", Site: "iterator/" + sc.Types[nh],
 			Detail: fmt.Sprintf("probe: new iterator %v | reused iterator %v", ferr, perr), Scenario: sc}
 	}
-	if d := simkit.DiffEvents(ft.Events, t.Events); d >= 0 && ferr == nil {
+	// (member order of Go maps has no seam: streams are compared in canonical
+	// form, members sorted by key - which is what lets maps with several
+	// entries take part)
+	fe, te := simkit.CanonEvents(ft.Events), simkit.CanonEvents(t.Events)
+	if d := simkit.DiffEvents(fe, te); d >= 0 && ferr == nil {
+		ft.Events, t.Events = fe, te
 		return &simkit.Violation{Kind: "probe-differs", Site: "iterator/" + sc.Types[nh],
 			Detail: fmt.Sprintf("probe events differ at %d: new iterator %s | reused iterator %s", d, simkit.EventsString(ft.Events, 12), simkit.EventsString(t.Events, 12)), Scenario: sc}
 	}
@@ -831,4 +840,26 @@ func dynStruct(k int) reflect.Value {
 		}))
 	}
 	return reflect.New(dynTypes[k])
+}
+
+// genNestedMaps draws a map[string]interface{} with 2-5 entries, some of them
+// maps with more entries than their parent has.
+func genNestedMaps(c *simkit.Choices, depth int) map[string]interface{} {
+	n := 2 + c.N(4)
+	if depth > 0 {
+		n += c.N(4)
+	}
+	m := make(map[string]interface{}, n)
+	for i := 0; i < n; i++ {
+		k := string(rune('a'+i)) + model.GenKey(c, 3)
+		switch {
+		case depth < 2 && c.N(3) == 0:
+			m[k] = genNestedMaps(c, depth+1)
+		case c.N(4) == 0:
+			m[k] = map[string]string{"x": "1", "y": "2", "z": model.GenText(c, 4)}
+		default:
+			m[k] = i
+		}
+	}
+	return m
 }
